@@ -116,9 +116,10 @@ Variable S : Type.
 Variable wuni : Mat -> S.
 Variable wmul : S -> bool -> Mat -> S.
 Definition step (st : cell -> S) (o : RObj) : cell -> S :=
+  let u := wuni (r_mat o) in           (* the broadcast value is computed once per object *)
   fun c => if in_box c (r_box o) then
              match r_mask o with
-             | None => wuni (r_mat o)
+             | None => u
              | Some mk => wmul (st c) (mk (local c (r_box o))) (r_mat o)
              end
            else st c.
